@@ -301,18 +301,21 @@ def w_matrix(arg):
     return rec
 
 
-def foreign_case(rec, kid, sub, usage, kind, cipher, halg, mixed=False):
+def foreign_case(rec, kid, sub, usage, kind, cipher, halg, mixed=False, longpw=False):
     import pgpy
-    spec = rs2k.Spec(kind, halg, b'' if kind == 'simple' else b'\x11\x22\x33\x44\x55\x66\x77\x88', 3 if kind == 'iterated' else None)
+    spec = rs2k.Spec(kind, halg, b'' if kind == 'simple' else b'\x11\x22\x33\x44\x55\x66\x77\x88', (0 if longpw else 3) if kind == 'iterated' else None)
     pw, pw2 = 'foreign pässphrase', 'another one'
+    if longpw:
+        # longer than the decoded octet count (1024): the whole salt+passphrase is hashed once all the same
+        pw = 'key file used as passphrase ' * 60
 
     def body(k, passphrase):
         return keypool.secret_body(k, protect={'usage': usage, 'sym': cipher, 'spec': spec, 'iv': bytes((i * 7 + 1) & 0xFF for i in range(rsym.BLOCK[cipher])), 'passphrase': passphrase})
     pubblob = keypool.ref_cert(kid, subkeys=((sub, 0x0C),), secret=False)
     pk = wire.split_packets(pubblob)
     blob = wire.build_packet(5, body(kid, pw)) + pk[1].raw + pk[2].raw + wire.build_packet(7, body(sub, pw2 if mixed else pw)) + pk[4].raw
-    case = {'kind': 'foreign', 'kid': kid, 'sub': sub, 'usage': usage, 'spec': kind, 'cipher': cipher, 'hash': halg, 'mixed': mixed}
-    tag = '%s/usage%d' % (kind, usage) + ('/mixed-passphrases' if mixed else '')
+    case = {'kind': 'foreign', 'kid': kid, 'sub': sub, 'usage': usage, 'spec': kind, 'cipher': cipher, 'hash': halg, 'mixed': mixed, 'longpw': longpw}
+    tag = '%s/usage%d' % (kind, usage) + ('/mixed-passphrases' if mixed else '') + ('/passphrase-longer-than-count' if longpw else '')
     rec.case(('foreign', kid, sub, usage, kind, cipher, halg, mixed), not (kind == 'iterated' and usage == 254 and not mixed),
              ['foreign/' + tag, 'foreign/cipher%d' % cipher, 'alg/' + kid.split('-')[0]], {'key': kid, 'subkey': sub, 'usage': usage, 's2k': kind, 'cipher': cipher, 'hash': halg, 'mixed': mixed})
     try:
@@ -387,9 +390,19 @@ def w_foreign(arg):
             if i % nparts != part:
                 continue
             foreign_case(rec, kid, SUBS[i % len(SUBS)], usage, kind, cipher, [2, 8, 10, 1][(i + ci) % 4])
+    # secret fields long enough for the usage-255 additive checksum to wrap around 65536 (RSA-2048: d, p, q, u ~ 640 octets)
+    big = [k for k in ('rsa2048-2', 'rsa3072-5', 'dsa2048-1') if k in keypool.pool()][:2]
+    for kid in big:
+        for usage in (255, 254):
+            for kind in ('iterated', 'salted'):
+                i += 1
+                if i % nparts != part:
+                    continue
+                foreign_case(rec, kid, SUBS[i % len(SUBS)], usage, kind, CIPHERS[i % len(CIPHERS)], [2, 8, 10, 1][i % 4])
     for j, kid in enumerate(['ed25519-0', 'rsa1024-0', 'ecdsa-p256-0', 'dsa1024-0']):
         if j % nparts == part % 4:
             foreign_case(rec, kid, SUBS[j], 254, 'iterated', 9, 8, mixed=True)
+            foreign_case(rec, kid, SUBS[j], [254, 255][j % 2], 'iterated', [9, 7, 3, 13][j], [8, 2, 10, 1][j], longpw=True)
             gnu_dummy_case(rec, kid)
     return rec
 
@@ -409,7 +422,7 @@ def dispatch(task):
 def replay(case):
     rec = harness.Rec()
     if case.get('kind') == 'foreign':
-        foreign_case(rec, case['kid'], case['sub'], case['usage'], case['spec'], case['cipher'], case['hash'], case.get('mixed', False))
+        foreign_case(rec, case['kid'], case['sub'], case['usage'], case['spec'], case['cipher'], case['hash'], case.get('mixed', False), case.get('longpw', False))
     elif case.get('kind') == 'gnu-dummy':
         gnu_dummy_case(rec, case['kid'])
     else:
